@@ -5,14 +5,14 @@ from io import BytesIO
 from props.common import FragStream, enc_str, enc_list, Reader, environ
 
 ID = 'C04'
-COQ_MODEL = 'model.Body'
-COQ_CORR = 'corr_C04'
+COQ_MODEL = 'model.ReqBody'
+COQ_CORR = 'corr_C04_all'
 N_QUICK = 1500
 N_THOROUGH = 6000
 THOROUGH_EXHAUSTIVE = True
 RULE = ('cases = corpus + random (data 0..48 bytes, Content-Length below/equal/above the data and negative, '
         'buffer 1..12, fragmentation schedules of short reads, early EOF, optional max_body_size), run through '
-        '_body_read directly and through Request.body (read twice, again through request.copy() after a partial read, again after a header is rewritten through Request.__setitem__ following a partial read, and with WSGI extension flags / unrelated headers / other verbs in the environ: wsgi.input_terminated, Transfer-Encoding: identity, Expect, PUT/GET, HTTP/1.0, json/form content types), a fifth of them with a multipart Content-Type (closing delimiter + epilogue: the markup is fed while buffering); thorough adds every schedule of length <= 5 over read '
+        '_body_read directly and through Request.body (read twice, again through request.copy() after a partial read, again after a header is rewritten through Request.__setitem__ following a partial read, and with WSGI extension flags / unrelated headers / other verbs in the environ: wsgi.input_terminated, Transfer-Encoding: identity, Expect, PUT/GET, HTTP/1.0, json/form content types), a fifth of them with a multipart Content-Type (closing delimiter + epilogue: the markup is fed while buffering); a seventh of the cases are op sequences on the family of request objects descending from one request by copy() (model/ReqBody.v: body.read(k), copy(), rewrites of Content-Length and of other headers, a new wsgi.input) compared output by output and stream by stream; thorough adds every schedule of length <= 5 over read '
         'caps {1,2,3,full} x body sizes 0..10 x buffers 1..4 x CL in {len-1,len,len+2} (exhaustive). '
         'non-trivial = at least two reads were issued and at least one of them was short or the body spilled; '
         'distinct by (len, cl, buf, schedule prefix actually consumed, via)')
@@ -52,6 +52,18 @@ def corpus():
         # the application rewrites a header after reading part of the body: the body stays what it was
         dict(data=d20, cl=20, buf=8, sched=[], maxb=None, via='request', reheader=('ctype', 5)),
         dict(data=d20, cl=20, buf=64, sched=[3], maxb=None, via='request', reheader=('same_cl', 20)),
+        # op sequences on the family of request objects descending from one request by copy()
+        # (model/ReqBody.v): ('body', r, k|None) ('copy', r) ('setcl', r, v) ('setother', r, which) ('setinput', r, data, sched)
+        dict(data=list(range(1, 8)), cl=5, buf=3, sched=[0, 1], maxb=None, via='ops',
+             ops=[('body', 0, 2), ('copy', 0), ('setcl', 0, 2), ('setother', 1, 'ctype'), ('body', 1, None),
+                  ('setinput', 1, [9, 9], []), ('body', 1, None), ('body', 0, None)]),
+        dict(data=d20, cl=20, buf=8, sched=[2] * 12, maxb=None, via='ops',
+             ops=[('copy', 0), ('setother', 0, 'http'), ('body', 1, 7), ('copy', 1), ('body', 2, None), ('body', 1, None)]),
+        dict(data=d20, cl=6, buf=8, sched=[], maxb=None, via='ops',
+             ops=[('setcl', 0, 9), ('body', 0, 3), ('setcl', 0, 4), ('body', 0, None), ('copy', 0), ('body', 1, None)]),
+        # record C04_copy_before_first_access_shares_stream_observation: the copy reads what follows the body
+        dict(data=list(range(1, 7)), cl=2, buf=4, sched=[], maxb=None, via='ops',
+             ops=[('copy', 0), ('body', 0, None), ('body', 1, None)]),
     ]
 
 
@@ -79,6 +91,12 @@ def gen(rng, n):
         if rng.random() < 0.15:
             maxb = rng.randrange(0, 50)
         case = dict(data=data, cl=cl, buf=buf, sched=sched, maxb=maxb, via=rng.choice(['func', 'request']))
+        if rng.random() < 0.15:
+            case['via'] = 'ops'
+            case['maxb'] = None
+            case['ops'] = _gen_ops(rng, ln)
+            yield case
+            continue
         if case['via'] == 'request' and rng.random() < 0.3:
             case['copy_after'] = rng.choice([0, 1, 3, ln, ln + 5])
         if case['via'] == 'request' and rng.random() < 0.3:
@@ -129,6 +147,67 @@ def _reheader(rq, kind, case):
         rq['REQUEST_METHOD'] = 'PUT'
 
 
+def _gen_ops(rng, ln):
+    ops, nreq = [], 1
+    read_first = rng.random() < 0.75     # mostly: materialise early, then try to disturb the buffered body
+    for i in range(rng.randrange(1, 10)):
+        r = rng.randrange(nreq)
+        x = rng.random()
+        if (i == 0 and read_first) or x < 0.4:
+            ops.append(('body', r, rng.choice([None, None, 0, 1, 3, ln, ln + 5])))
+        elif x < 0.6:
+            ops.append(('copy', r))
+            nreq += 1
+        elif x < 0.72:
+            ops.append(('setcl', r, rng.choice([0, 1, 3, ln, ln + 4, max(0, ln - 2)])))
+        elif x < 0.92:
+            ops.append(('setother', r, rng.choice(REHEADERS[:1] + REHEADERS[2:])))
+        else:
+            d2 = [rng.randrange(256) for _ in range(rng.randrange(0, 12))]
+            ops.append(('setinput', r, d2, [rng.choice([0, 1, 4]) for _ in range(rng.randrange(0, 4))]))
+    ops.append(('body', rng.randrange(nreq), None))
+    return ops
+
+
+def _run_ops(case):
+    from ombott import Request, DefaultConfig
+    st = FragStream(case['data'], case['sched'])
+    streams = [st]
+    env = environ('POST', '/', **{'wsgi.input': st})
+    if case['cl'] >= 0:
+        env['CONTENT_LENGTH'] = str(case['cl'])
+    else:
+        env.pop('CONTENT_LENGTH', None)
+    cfg = DefaultConfig(dict(max_memfile_size=case['buf'], max_body_size=None))
+    reqs = [Request(env, config=cfg)]
+    outs = []
+    for op in case['ops']:
+        kind, r = op[0], op[1]
+        if r >= len(reqs):
+            outs.append(['badreq'])
+            continue
+        rq = reqs[r]
+        if kind == 'body':
+            k = op[2]
+            b = rq.body.read() if k is None else rq.body.read(k)
+            outs.append(['bytes', list(b)])
+        elif kind == 'copy':
+            reqs.append(rq.copy())
+            outs.append(['new', len(reqs) - 1])
+        elif kind == 'setcl':
+            rq['CONTENT_LENGTH'] = str(op[2])
+            outs.append(['unit'])
+        elif kind == 'setother':
+            _reheader(rq, op[2], case)
+            outs.append(['unit'])
+        elif kind == 'setinput':
+            s2 = FragStream(op[2], op[3])
+            streams.append(s2)
+            rq['wsgi.input'] = s2
+            outs.append(['unit'])
+    return dict(status='ops', outs=outs, streams=[dict(reqs=s.log, pos=s.pos) for s in streams])
+
+
 def thorough():
     for L in range(0, 6):
         for sched in itertools.product([0, 1, 2, 99], repeat=L):
@@ -145,6 +224,8 @@ def run_impl(case):
     from ombott.request_pkg.body_mixin import _body_read
     from ombott.request_pkg.errors import BodySizeError
     from ombott import Request, HTTPError
+    if case['via'] == 'ops':
+        return _run_ops(case)
     st = FragStream(case['data'], case['sched'])
     if case['via'] == 'func':
         try:
@@ -200,13 +281,42 @@ def run_impl(case):
     return dict(status='ok', body=list(c1), spilled=spilled, reqs=st.log, pos=st.pos)
 
 
+def _enc_op(op):
+    kind, r = op[0], op[1]
+    if kind == 'body':
+        return [0, r, 0 if op[2] is None else 1, op[2] or 0]
+    if kind == 'copy':
+        return [1, r]
+    if kind == 'setcl':
+        return [2, r, op[2]]
+    if kind == 'setother':
+        return [3, r]
+    return [4, r] + enc_str(op[2]) + enc_list(op[3], lambda k: [k])
+
+
 def encode(case):
-    return ([case['cl'], case['buf'], 0 if case['maxb'] is None else 1, case['maxb'] or 0]
+    if case['via'] == 'ops':
+        return ([1, case['cl'], case['buf']] + enc_str(case['data']) + enc_list(case['sched'], lambda k: [k])
+                + enc_list(case['ops'], _enc_op))
+    return ([0, case['cl'], case['buf'], 0 if case['maxb'] is None else 1, case['maxb'] or 0]
             + enc_str(case['data']) + enc_list(case['sched'], lambda k: [k]))
+
+
+def _dec_out(q):
+    t = q.int()
+    if t == 0:
+        return ['bytes', q.str()]
+    if t == 1:
+        return ['new', q.int()]
+    return [{2: 'unit', 3: 'badreq'}.get(t, 'model_tag_%d' % t)]
 
 
 def decode(out, case):
     r = Reader(out)
+    if case['via'] == 'ops':
+        outs = r.list(_dec_out)
+        streams = r.list(lambda q: dict(reqs=q.list(lambda z: [z.int(), z.int()]), pos=q.int()))
+        return dict(status='ops', outs=outs, streams=streams)
     tag = r.int()
     if tag == 0:
         sp = r.bool()
@@ -219,8 +329,76 @@ def decode(out, case):
     return dict(status='model_tag_%d' % tag)
 
 
+def _oracle_ops(case, obs):
+    """op sequences: (a) what a request object presents is stable — every access returns a prefix of ONE content,
+    until a new wsgi.input is assigned to that object; a copy of an object that already presents a body presents
+    the same one; (b) the first access of the history returns the first Content-Length bytes of the server
+    stream; (c) when the history starts with an access on the original request, the server stream is never
+    touched again and was never read beyond Content-Length."""
+    if obs.get('status') != 'ops':
+        return 'unexpected outcome %s' % obs
+    data = bytes(case['data'])
+    content = {}            # request index -> bytes it presents (once known in full) / minimal known prefix
+    cl = {0: case['cl']}
+    nreq, first_access, disturbed = 1, True, False
+    for i, (op, out) in enumerate(zip(case['ops'], obs['outs'])):
+        kind, r = op[0], op[1]
+        if r >= nreq:
+            continue
+        if kind == 'body':
+            got = bytes(out[1]) if out[0] == 'bytes' else None
+            if got is None:
+                return 'op %d: request.body.read gave %s' % (i, out)
+            k = op[2]
+            if first_access and not disturbed:
+                want = data[:max(cl[r], 0)]
+                want = want if k is None else want[:k]
+                if got != want:
+                    return ('op %d: the first body access returned %d bytes, expected the first %d bytes of the '
+                            'stream (cut to read(%s))' % (i, len(got), max(cl[r], 0), k))
+                content[r] = ('full', data[:max(cl[r], 0)])
+            elif r in content:
+                mode, c = content[r]
+                if mode == 'full':
+                    if got != (c if k is None else c[:k]):
+                        return ('op %d: request %d presented %r earlier and now read(%s) returns %r'
+                                % (i, r, c[:40], k, got[:40]))
+                else:   # only a prefix is known so far
+                    n = min(len(c), len(got))
+                    if got[:n] != c[:n] or (k is not None and len(got) < min(k, len(c))):
+                        return 'op %d: request %d returns %r, earlier %r' % (i, r, got[:40], c[:40])
+                    if k is None:
+                        content[r] = ('full', got)
+                    elif len(got) > len(c):
+                        content[r] = ('prefix', got)
+            else:
+                content[r] = ('full', got) if k is None or len(got) < k else ('prefix', got)
+            first_access = False
+        elif kind == 'copy':
+            if r in content:
+                content[nreq] = content[r]
+            cl[nreq] = cl[r]
+            nreq += 1
+        elif kind == 'setcl':
+            cl[r] = op[2]
+        elif kind == 'setinput':
+            content.pop(r, None)
+            disturbed = True
+    if case['ops'] and case['ops'][0][0] == 'body' and case['ops'][0][1] == 0:
+        c0 = max(case['cl'], 0)
+        st = obs['streams'][0]
+        for n, p in st['reqs']:
+            if p + n > c0:
+                return 'read(%d) at stream position %d reaches beyond Content-Length %d' % (n, p, c0)
+        if st['pos'] != min(c0, len(data)):
+            return 'server stream left at %d, expected %d' % (st['pos'], min(c0, len(data)))
+    return None
+
+
 def oracle(case, obs):
     """the property stated directly on the implementation's observable behaviour"""
+    if case['via'] == 'ops':
+        return _oracle_ops(case, obs)
     data, cl, buf = bytes(case['data']), max(case['cl'], 0), case['buf']
     if obs.get('status') not in ('ok', 'too_large'):
         return 'unexpected outcome %s' % obs
@@ -244,6 +422,9 @@ def oracle(case, obs):
 
 
 def nontrivial(case, obs):
+    if case['via'] == 'ops':
+        kinds = [o[0] for o in case['ops']]
+        return kinds.count('body') >= 2 and len(set(kinds)) >= 2
     reqs = obs.get('reqs') or []
     if len(reqs) < 2:
         return False
@@ -253,11 +434,19 @@ def nontrivial(case, obs):
 
 
 def key(case):
+    if case['via'] == 'ops':
+        return ('ops', len(case['data']), case['cl'], case['buf'], tuple(case['sched'][:8]),
+                tuple(tuple(map(lambda v: tuple(v) if isinstance(v, list) else v, o)) for o in case['ops']))
     return (len(case['data']), case['cl'], case['buf'], tuple(case['sched'][:8]), case['via'], case['maxb'],
             bool(case.get('mp')), case.get('copy_after'), case.get('extra'), case.get('reheader'))
 
 
 def classify(case, obs):
+    if case['via'] == 'ops':
+        kinds = [o[0] for o in case['ops']]
+        return 'ops/%s%s%s%s' % ('first-read' if kinds[0] == 'body' else 'passive-prefix',
+                                 '+copy' if 'copy' in kinds else '', '+rewrite' if 'setcl' in kinds or 'setother' in kinds else '',
+                                 '+newinput' if 'setinput' in kinds else '')
     ln, cl = len(case['data']), case['cl']
     rel = 'cl<0' if cl < 0 else 'cl=len' if cl == ln else 'cl<len' if cl < ln else 'cl>len(early EOF)'
     return '%s%s%s%s/%s/%s/%s' % (case['via'], '+multipart' if case.get('mp') else '',
@@ -267,6 +456,18 @@ def classify(case, obs):
 
 
 def shrink(case):
+    if case['via'] == 'ops':
+        ops = case['ops']
+        for i in range(len(ops)):
+            rest = ops[:i] + ops[i + 1:]
+            if ops[i][0] == 'copy':
+                continue        # indices of later requests would shift
+            yield dict(case, ops=rest)
+        if case['sched']:
+            yield dict(case, sched=case['sched'][:-1])
+        if len(case['data']) > 1:
+            yield dict(case, data=case['data'][:-1])
+        return
     d = case['data']
     for i in range(len(d)):
         c = dict(case, data=d[:i] + d[i + 1:])
